@@ -91,6 +91,9 @@ type Transport struct {
 	OnAccept func(b []byte)
 	// OnClose is called (under no lock) when Close takes effect.
 	OnClose func()
+	// Tracker, when set (real-goroutine mode), is told when the reading goroutine parks and when it is woken.
+	Tracker     *Tracker
+	parkCounted bool
 }
 
 // NewTransport creates a mock transport.
@@ -269,6 +272,7 @@ func (t *Transport) Close() error {
 		return ErrClosedConn
 	}
 	t.closed = true
+	t.wakeReaderLocked()
 	t.cond.Broadcast()
 	if t.OnClose != nil {
 		t.mu.Unlock()
@@ -296,6 +300,10 @@ func (t *Transport) Read(p []byte) (int, error) {
 		t.mu.Lock()
 		for !t.readableLocked() {
 			t.readWaiting = true
+			if t.Tracker != nil && !t.parkCounted {
+				t.parkCounted = true
+				t.Tracker.End()
+			}
 			t.cond.Broadcast()
 			t.cond.Wait()
 		}
@@ -334,6 +342,14 @@ func (t *Transport) Read(p []byte) (int, error) {
 	return 0, io.EOF
 }
 
+// wakeReaderLocked accounts for a parked reader that is about to continue.
+func (t *Transport) wakeReaderLocked() {
+	if t.Tracker != nil && t.parkCounted && t.readableLocked() {
+		t.parkCounted = false
+		t.Tracker.Begin()
+	}
+}
+
 // Feed makes chunks available to Read (each chunk is returned by at most one Read, possibly split).
 func (t *Transport) Feed(chunks ...[]byte) {
 	t.mu.Lock()
@@ -342,6 +358,7 @@ func (t *Transport) Feed(chunks ...[]byte) {
 			t.inbound = append(t.inbound, append([]byte{}, c...))
 		}
 	}
+	t.wakeReaderLocked()
 	t.cond.Broadcast()
 	t.mu.Unlock()
 }
@@ -350,6 +367,7 @@ func (t *Transport) Feed(chunks ...[]byte) {
 func (t *Transport) PeerClose() {
 	t.mu.Lock()
 	t.peerEOF = true
+	t.wakeReaderLocked()
 	t.cond.Broadcast()
 	t.mu.Unlock()
 }
@@ -358,6 +376,7 @@ func (t *Transport) PeerClose() {
 func (t *Transport) FailRead(err error) {
 	t.mu.Lock()
 	t.readErr = err
+	t.wakeReaderLocked()
 	t.cond.Broadcast()
 	t.mu.Unlock()
 }
